@@ -2,7 +2,7 @@
    description, cuts it into read segments, feeds the segments to the codec model (with the
    SimpleHead tokenizer and the constants of Gen.Consts) and renders every observable. *)
 From Coq Require Import String.
-From AV Require Import Lib.Base Lib.V Gen.Consts H1.Chunked H1.PayloadDec H1.Framing H1.Codec H1.SimpleHead
+From AV Require Import Lib.Base Lib.V Gen.Consts Gen.H1Gate H1.Chunked H1.PayloadDec H1.Framing H1.Codec H1.SimpleHead
   H1.Gate H1.GateExec.
 Open Scope N_scope.
 
@@ -145,7 +145,7 @@ Fixpoint xops_of (polls : list (N * N)) (s : bytes) : list xop :=
   end.
 
 Definition model_gate (polls : list (N * N)) (s : bytes) : gate :=
-  xexec (simple_head H1_MAX_HEADERS) H1_MAX_BUFFER_SIZE H1_MAX_PIPELINED_MESSAGES (xops_of polls s) gate0.
+  xexec (simple_head H1_MAX_HEADERS) H1_MAX_BUFFER_SIZE H1_MAX_PIPELINED_MESSAGES H1_DISP_READ_CAP (xops_of polls s) gate0.
 
 (* what the application and the peer see: statuses of the dispatcher's own responses, the list of
    requests handed to the service (not determined after an I/O-class drop), closed after a rejection *)
